@@ -53,6 +53,7 @@ pub struct Params {
     pub forward_idioms: bool,
     pub saturate_idioms: bool,
     pub chain_idioms: bool,
+    pub survivors_idioms: bool,
     pub exact_threshold_prologue: u32, // percent of runs that start by driving allocated bytes exactly onto the threshold
 }
 
@@ -115,6 +116,7 @@ pub fn params(profile: &str) -> Params {
         forward_idioms: false,
         saturate_idioms: false,
         chain_idioms: false,
+        survivors_idioms: false,
         exact_threshold_prologue: 0,
     };
     let all_faults = vec![
@@ -186,6 +188,7 @@ pub fn params(profile: &str) -> Params {
         "cyclic" => {
             set(&mut p.w, &[(O::NewCyclic, 16), (O::NewCyclicLeaf, 5), (O::Upgrade, 8), (O::UpgradeDrop, 4), (O::WeakDrop, 4), (O::CfgBuffered, 3), (O::CfgAuto, 2)]);
             p.auto_rate = 80;
+            p.survivors_idioms = true;
             p.drop_rate = 35;
             p.drop_minis = vec![(M::AllocCyclic, 4), (M::WeakToRoot, 2), (M::Collect, 1), (M::Alloc, 1)];
         }
@@ -205,6 +208,7 @@ pub fn params(profile: &str) -> Params {
             p.fin_rate = 10;
             p.drop_rate = 0;
             p.exact_threshold_prologue = 25;
+            p.survivors_idioms = true;
         }
         "saturate" => {
             set(&mut p.w, &[(O::BulkClone, 10), (O::BulkUpgrade, 6), (O::BulkWeakClone, 6), (O::BulkDowngrade, 6), (O::BulkDrop, 6), (O::BulkWeakDrop, 4), (O::Clone, 8), (O::Upgrade, 6), (O::Downgrade, 6), (O::WeakClone, 4), (O::BulkRegister, 4), (O::BulkClean, 3), (O::BulkEdges, 6), (O::BulkEdgesDrop, 3), (O::Collect, 10)]);
@@ -468,6 +472,33 @@ impl<'a> Gen<'a> {
             self.push(Op::new(O::Collect, &[]));
             if self.r.chance(1, 2) {
                 self.push(Op::new(O::Collect, &[]));
+            }
+            return;
+        }
+        if self.p.survivors_idioms && HAS_AUTO && self.r.chance(1, 4) && self.sh.objects + 6 <= self.p.max_objects {
+            // a garbage cycle whose members point at several objects that stay alive: reclaiming it buffers the survivors
+            // again (without finalization they are still buffered when the collection returns); then a creation that is
+            // due to collect: exactly one collection per creation, whatever the first one leaves behind
+            let k = 2 + self.r.below(3) as i64;
+            for _ in 0..k {
+                let t = self.tmpl();
+                self.push(Op::new(O::New, &[]).with_tmpl(t));
+            }
+            let store = STORE_KINDS.iter().position(|s| s.0 == "vec5").unwrap() as u16;
+            self.push(Op::new(O::New, &[]).with_tmpl(NodeTmpl { store, fin: vec![], drop: vec![] }));
+            let g = base + k;
+            self.push(Op::new(O::SetSlot, &[g, 0, g]));
+            for i in 0..k {
+                self.push(Op::new(O::SetSlot, &[g, 1 + i, base + i]));
+            }
+            self.push(Op::new(O::CfgAuto, &[1]));
+            self.push(Op::new(O::CfgBuffered, &[1]));
+            self.push(Op::new(O::Drop, &[g]));
+            let t = self.tmpl();
+            if HAS_WEAK && self.r.chance(2, 3) {
+                self.push(Op::new(O::NewCyclic, &[]).with_tmpl(t).with_script(vec![Mini::new(MiniCode::SelfWeak, &[])]));
+            } else {
+                self.push(Op::new(O::New, &[]).with_tmpl(t));
             }
             return;
         }
